@@ -217,13 +217,51 @@ def pip_unit():
     insts = [
         Inst('GeoPolygon._point_in_polygon', 'pointInPolygon',
              [('coord', 'Pt'), ('polygon', 'List Pt'), ('include_boundary', 'Bool')], 'Except Bool'),
+        Inst('GeoPolygon._point_in_polygon', 'pointInPolygonDefault', [('coord', 'Pt'), ('polygon', 'List Pt')], 'Except Bool',
+             doc='`include_boundary` left at its default'),
     ]
     return Unit('SrcPip', src, 'GV.Src.Pip', ['GeoVerif.Model.Pip', 'GeoVerif.Model.PyPrelude'], insts, {},
                 attr_types={('Pt', 'longitude'): ('{}.1', 'R'), ('Pt', 'latitude'): ('{}.2', 'R')},
                 hooks={'isinstance': lambda typ: None})
 
 
-UNITS = {'SrcTime': time_unit, 'SrcBase': base_unit, 'SrcMulti': multi_unit, 'SrcColl': coll_unit, 'SrcPip': pip_unit}
+def _pip_externals():
+    ext = {}
+    for i in pip_unit().insts:
+        j = Inst(i.qual, 'GV.Src.Pip.' + i.lean, i.params, i.ret, i.doc)
+        ext.setdefault(j.key(), j)
+    return ext
+
+
+# geostructures/structures.py :: GeoBox.contains_coordinate, GeoPolygon.contains_coordinate   (C01)
+#
+# the receiver is given by its fields: `nw se` (corners), `outline`, `holes` (each hole an outline), `bnd` = `self.bounds`
+# (a cached property computed elsewhere: min/max over the outline); `hc h c` = `c in h` for a hole `h`.
+
+def member_unit():
+    src = py2lean.Source(_repo('structures.py'))
+    insts = [
+        Inst('GeoBox.contains_coordinate', 'boxContainsCoordinate', [('self', 'Box'), ('coord', 'Pt')], 'Bool'),
+        Inst('GeoPolygon.contains_coordinate', 'polyContainsCoordinate', [('self', 'Poly'), ('coord', 'Pt')], 'Except Bool'),
+    ]
+    py2lean.LEAN_TYPE.setdefault('Box', 'Unit')
+    py2lean.LEAN_TYPE.setdefault('Poly', 'Unit')
+    py2lean.LEAN_TYPE.setdefault('Hole', 'List GV.Pt')
+    abstract = {('Hole', '__contains__', ('Pt',)): ('hc {0} {1}', 'Bool')}
+    attr = {('Pt', 'longitude'): ('{}.1', 'R'), ('Pt', 'latitude'): ('{}.2', 'R'),
+            ('Box', 'nw_bound'): ('nw', 'Pt'), ('Box', 'se_bound'): ('se', 'Pt'), ('Box', 'holes'): ('holes', 'List Hole'),
+            ('Poly', 'outline'): ('outline', 'List Pt'), ('Poly', 'holes'): ('holes', 'List Hole'),
+            ('Poly', 'bounds'): ('bnd', 'Tuple4 R')}
+    return Unit('SrcMember', src, 'GV.Src.Member', ['GeoVerif.Gen.SrcPip', 'GeoVerif.Model.Pip'], insts,
+                {'Poly': 'GeoPolygon', 'Box': 'GeoBox'}, attr_types=attr, abstract=abstract,
+                hooks={'isinstance': lambda typ: None},
+                ctx_params=[('hc', 'List GV.Pt → GV.Pt → Bool'), ('nw', 'GV.Pt'), ('se', 'GV.Pt'), ('outline', 'List GV.Pt'),
+                            ('holes', 'List (List GV.Pt)'), ('bnd', 'Rat × Rat × Rat × Rat')],
+                externals=_pip_externals())
+
+
+UNITS = {'SrcTime': time_unit, 'SrcBase': base_unit, 'SrcMulti': multi_unit, 'SrcColl': coll_unit, 'SrcPip': pip_unit,
+         'SrcMember': member_unit}
 
 
 def render(name):
